@@ -47,22 +47,19 @@ theorem C01_no_made_up_value (o : ReadOpts) (lines : List (List Char)) (f : PdbF
     (∀ d ∈ ds, d.level.fails o.level = false) ∧ (∀ d ∈ ds, d.level ≠ .invalidating ∧ d.level ≠ .breaking) := by
   have key : ∀ d ∈ ds, d.level.fails o.level = false := by
     unfold readPdb at h
-    cases hc : readPdbCore o lines with
-    | none => rw [hc] at h; cases h
-    | some fe =>
-      obtain ⟨f', errors⟩ := fe
-      rw [hc] at h
-      simp only at h
-      by_cases hany : errors.any (fun e => e.level.fails o.level) = true
-      · rw [if_pos hany] at h; cases h
-      · rw [if_neg hany] at h
-        simp only [Outcome.ok.injEq] at h
-        obtain ⟨_, rfl⟩ := h
-        intro d hd
-        cases hf : d.level.fails o.level
-        · rfl
-        · exfalso; apply hany
-          rw [List.any_eq_true]; exact ⟨d, hd, hf⟩
+    rcases hc : readPdbCore o lines with ⟨f', errors⟩
+    rw [hc] at h
+    simp only at h
+    by_cases hany : errors.any (fun e => e.level.fails o.level) = true
+    · rw [if_pos hany] at h; cases h
+    · rw [if_neg hany] at h
+      simp only [Outcome.ok.injEq] at h
+      obtain ⟨_, rfl⟩ := h
+      intro d hd
+      cases hf : d.level.fails o.level
+      · rfl
+      · exfalso; apply hany
+        rw [List.any_eq_true]; exact ⟨d, hd, hf⟩
   refine ⟨key, ?_⟩
   intro d hd
   have := key d hd
